@@ -46,7 +46,7 @@ func boolsTerm(l []bool) string {
 
 func genC14(c *Ctx) error {
 	c.ShardSize = 600
-	c.Notes["rule"] = "(one vector in sixty is a burst: 8 goroutines x 150 queries at once, every one by a creator the process has not seen before) every vector runs in a child process hosting the chaincode (a process death is observed by the parent, which restarts the child after the crasher). plain: every entry point (Init, every function of the contract's router, batchExecute, executeTasks, swapDone, multiSwapDone, createIndex, the robot's transfer functions, unknown and empty names) x argument vectors of length 0..n+2 (correctly signed requests truncated / extended / permuted, addresses, numbers, JSON, protobuf, random bytes, empty, 64 KiB) x creator (robot, client, admin, garbage) x access-control replies (ok, error status, empty, garbled, ok without address, key-type list short / long / missing). batch: batchExecute with 1-5 pending transactions whose bodies put / fail / panic / nil-map-panic, swap answers and swap keys (well-formed, unknown, empty id) - per item: completed or not. tasks: executeTasks with 1-5 tasks whose bodies put / panic, tasks with fewer or more arguments than the method expects, unknown methods, access-control replies garbled for one signer - per task: completed or not. Non-trivial: the vector makes at least one frame panic or is malformed."
+	c.Notes["rule"] = "(one vector in sixty is a burst: 8 goroutines x 150 queries at once, every one by a creator the process has not seen before) every vector runs in a child process hosting the chaincode (a process death is observed by the parent, which restarts the child after the crasher). plain: every entry point (Init, every function of the contract's router, batchExecute, executeTasks, swapDone, multiSwapDone, createIndex, the robot's transfer functions, unknown and empty names) x caller identity (robot, client, admin, garbage, empty, certificates with no / empty / several organisational units, RSA key, non-PEM and empty certificate bytes) x argument vectors of length 0..n+2 (correctly signed requests truncated / extended / permuted, addresses, numbers, JSON, protobuf, random bytes, empty, 64 KiB) x creator (robot, client, admin, garbage) x access-control replies (ok, error status, empty, garbled, ok without address, key-type list short / long / missing). batch: batchExecute with 1-5 pending transactions whose bodies put / fail / panic / nil-map-panic, swap answers and swap keys (well-formed, unknown, empty id) - per item: completed or not. tasks: executeTasks with 1-5 tasks whose bodies put / panic, tasks with fewer or more arguments than the method expects, unknown methods, access-control replies garbled for one signer - per task: completed or not. Non-trivial: the vector makes at least one frame panic or is malformed."
 	total := c.N(700, 12000)
 	self, err := os.Executable()
 	if err != nil {
@@ -334,12 +334,19 @@ func c14Init(w *World, rng *rand.Rand, accs []*Account, i int, emit func(c14Rec)
 		args = []string{string(b)}
 		desc = "init json " + truncS(string(b), 300)
 	}
+	initCreator := w.Admin.Creator
+	if rng.Intn(2) == 0 {
+		oc := c14OddCreators()
+		k := rng.Intn(len(oc))
+		initCreator = oc[k].b
+		desc += " | caller: " + oc[k].name
+	}
 	emit(c14Rec{I: i, Phase: "start", Kind: "plain", Desc: desc})
 	var a [][]byte
 	for _, x := range args {
 		a = append(a, []byte(x))
 	}
-	res, _ := w.Peer.Simulate("tt", w.Peer.NextTxID(), w.Admin.Creator, true, a)
+	res, _ := w.Peer.Simulate("tt", w.Peer.NextTxID(), initCreator, true, a)
 	w.Peer.Commit("tt", res)
 	// the configuration in force is applied by the next invocation
 	res2, _ := w.Peer.Simulate("tt", w.Peer.NextTxID(), w.Client.Creator, false, strArgs("metadata", nil))
@@ -393,7 +400,12 @@ func c14Plain(w *World, cc *core.Chaincode, rng *rand.Rand, names []string, accs
 		name string
 		b    []byte
 	}{{"robot", w.Robot.Creator}, {"client", w.Client.Creator}, {"admin", w.Admin.Creator}, {"garbage", []byte{1, 2, 3}}, {"empty", nil}}
+	creators = append(creators, c14OddCreators()...)
 	cr := creators[rng.Intn(len(creators))]
+	if isInit && rng.Intn(2) == 0 {
+		oc := c14OddCreators()
+		cr = oc[rng.Intn(len(oc))]
+	}
 	if fn == "batchExecute" || fn == "executeTasks" || strings.Contains(fn, "CCTransfer") {
 		if rng.Intn(3) > 0 {
 			cr = creators[0]
@@ -414,6 +426,37 @@ func c14Plain(w *World, cc *core.Chaincode, rng *rand.Rand, names []string, accs
 		w.Peer.Commit("tt", res)
 	}
 	emit(c14Rec{I: i, Phase: "done", Replied: res.Panicked == nil && res.Status != 0, Status: res.Status, Msg: truncS(res.Message, 200)})
+}
+
+// caller identities of unusual shape: well-formed X.509 certificates whose organisational-unit list is empty, holds an
+// empty name, or holds several names (the admin unit first / last / absent), an RSA key, and a serialized identity
+// whose certificate bytes are not PEM
+var c14odd []struct {
+	name string
+	b    []byte
+}
+
+func c14OddCreators() []struct {
+	name string
+	b    []byte
+} {
+	if c14odd == nil {
+		add := func(name string, b []byte) {
+			c14odd = append(c14odd, struct {
+				name string
+				b    []byte
+			}{name, b})
+		}
+		add("certificate without organisational units", NewECIdentityOUs("nou", nil).Creator)
+		add("certificate with an empty unit name", NewECIdentityOUs("eou", []string{""}).Creator)
+		add("certificate with units [client admin]", NewECIdentityOUs("ca", []string{"client", "admin"}).Creator)
+		add("certificate with units [admin client]", NewECIdentityOUs("ac", []string{"admin", "client"}).Creator)
+		add("certificate with units [a b c d]", NewECIdentityOUs("abcd", []string{"a", "b", "c", "d"}).Creator)
+		add("RSA certificate of the admin unit", NewRSAIdentity("rsa", "admin").Creator)
+		add("identity whose certificate is not PEM", makeCreatorRaw("verifMSP", []byte("not a pem block")))
+		add("identity with an empty certificate", makeCreatorRaw("verifMSP", nil))
+	}
+	return c14odd
 }
 
 func trunc(args []string) []string {
